@@ -9,6 +9,7 @@ import (
 	"fmt"
 	"io"
 	"os"
+	"os/signal"
 	"path/filepath"
 	"syscall"
 
@@ -30,6 +31,16 @@ func main() {
 
 	log.SetOutput(io.Discard)
 	log.SetLevel(log.PanicLevel)
+	// The children's scripts rely on default signal dispositions (`kill -s HUP $$` must end the shell).
+	// A disposition "ignored" is inherited across exec — and a check started under nohup or as a
+	// background job of a non-interactive shell comes with HUP resp. INT/QUIT ignored. A signal that has
+	// a Go handler is reset to the default in exec'd children, so: where a signal is ignored on entry,
+	// install a handler that goes on ignoring it for this process only.
+	for _, sg := range []os.Signal{syscall.SIGHUP, syscall.SIGINT, syscall.SIGQUIT, syscall.SIGTERM, syscall.SIGUSR1, syscall.SIGABRT} {
+		if signal.Ignored(sg) {
+			signal.Notify(make(chan os.Signal, 1), sg)
+		}
+	}
 	// children that kill themselves with SEGV/ABRT must not write core files
 	_ = syscall.Setrlimit(syscall.RLIMIT_CORE, &syscall.Rlimit{Cur: 0, Max: 0})
 	var err error
